@@ -21,7 +21,9 @@ RULE = ("histories = 1-3 Model subclass hierarchies of depth 0-6 built with type
         "placed AFTER Model in the bases (must never run) + 1-4 instances (several of one class too) + 4-30 interleaved "
         "step(*args, **kwargs) calls with matching and mismatching argument lists (0-3, sometimes 6 arguments; in 30 % of the "
         "histories the arguments are twelve exotic objects - None, float, str, tuple, bool, 2**70, numpy scalar, 0-d array, [], dict, "
-        "Decimal, Fraction - mapped back by identity), run_model() and running = True/False, continuing after TypeError and user "
+        "Decimal, Fraction - mapped back by identity), run_model() and running = True/False, pickle round trips (protocols 0-5 and "
+        "default, directly or through a pickled agent / AgentSet of the model) and deepcopies of an instance mid-history with stepping "
+        "continuing on the copy and on the original, continuing after TypeError and user "
         "exceptions; every body logs self.steps, self.running and its arguments; the first part of every run enumerates all "
         "hierarchies of depth <= 3 over 10 level kinds (depth 4 in the thorough tier); non-trivial = at least 2 step/run_model calls "
         "of which one executed user code; distinct = by SHA1 of the history")
@@ -643,7 +645,7 @@ def nontrivial(case):
     return len(calls) >= 2 and any(len(o) > 4 and o[0] == 0 and o[3] > 0 for o in calls)
 
 
-LEVEL_TEXT = ("19 machine-checked Coq theorems (+ 6 examples) over Model/StepCounter.v, Model/C3.v, Proofs/StepCounterProofs.v, for every "
+LEVEL_TEXT = ("20 machine-checked Coq theorems (+ 7 examples) over Model/StepCounter.v, Model/C3.v, Proofs/StepCounterProofs.v, for every "
               "hierarchy (any depth, any subset of levels defining step, any arities, any subset calling super, diamonds and mixins via the "
               "MRO list), every argument list and every outcome (normal, TypeError, exception in user code): without recursion one call "
               "advances steps by exactly one, every user body runs after the increment and sees the new value, the bodies run are "
@@ -652,7 +654,8 @@ LEVEL_TEXT = ("19 machine-checked Coq theorems (+ 6 examples) over Model/StepCou
               "is counted exactly once before its user code (resolved bodies see steps+1, steps+2, ..., final; variadic and "
               "parameterless steps), and with a parameterised step the nested call is counted, rejected, and unwinds the outer call; "
               "run_model performs exactly the calls made while running was true and returns with running false; in every interleaved "
-              "history each instance ends where its own operations alone take it (projection) and steps counts the calls; the C3 "
+              "history each instance ends where its own operations alone take it (projection) and steps counts the calls; a pickle round trip "
+              "or deepcopy yields a new instance with the same counter that is an instance like any other; the C3 "
               "linearisation of every generator-shaped hierarchy of depth <= 7 is the level order. Tied to the code by T1 (statement "
               "order/skeletons re-read from the source on every run) and by differential evaluation under vm_compute on all hierarchies of "
               "depth <= 3 over 10 level kinds and random deeper ones (T2); an independent oracle states the property on the "
